@@ -497,6 +497,11 @@ class KeyboardMatrix:
             self._fifo[idx] = value & 0xFF
         self._head = _get_int("head", self._head) % FIFO_SIZE
         self._tail = _get_int("tail", self._tail) % FIFO_SIZE
+        if self._head == self._tail and _get_int("fifo_len", 0) >= FIFO_SIZE:
+            # A writer that counts its entries (the Rust core) can fill every
+            # slot; this ring keeps one free, so head == tail would read as
+            # empty.  The oldest entry makes room, as on overflow.
+            self._head = (self._head + 1) % FIFO_SIZE
 
         self.strobe_count = _get_int("strobe_count", self.strobe_count)
         hist = state.get("column_histogram")
